@@ -363,6 +363,9 @@ func roundTripDocument(out *Out, rng *Rng, idx int, obs map[string]int) {
 	}
 	doc0, _ := json.Marshal(state)
 	h0 := int64(1 + rng.Intn(1000))
+	if rng.Chance(1, 8) {
+		h0 = 1 // a chain that starts at height 1: InitChain runs with a header of height 0
+	}
 	c, perr := importApp(fmt.Sprintf("doc-%d", idx), doc0, h0, 1700000000, bl)
 	if perr != "" {
 		// a document that ValidateGenesis accepts but InitGenesis cannot load: recorded, not judged here (C10's concern)
@@ -384,7 +387,7 @@ func roundTripDocument(out *Out, rng *Rng, idx int, obs map[string]int) {
 		out.Emit(fmt.Sprintf("chk docEq/import.export-failed tag=import.export-failed | ok %s", sanitize(err.Error())), "true", "export-error", false)
 		return
 	}
-	emitSections(out, cdc, "import", sec, sec1, h0, true)
+	emitSections(out, cdc, "import", sec, sec1, initChainHeight(h0), true)
 	d, perr := importApp(fmt.Sprintf("doc-%d-b", idx), state1, h1, 1700000000, bl)
 	if perr != "" {
 		out.Emit(fmt.Sprintf("chk docEq/reexport.import-panicked tag=reexport.import-panicked | ok %s", sanitize(perr)), "true", "import-panic", false)
@@ -395,6 +398,6 @@ func roundTripDocument(out *Out, rng *Rng, idx int, obs map[string]int) {
 		out.Emit(fmt.Sprintf("chk docEq/reexport.export-failed tag=reexport.export-failed | ok %s", sanitize(err.Error())), "true", "export-error", false)
 		return
 	}
-	emitSections(out, cdc, "reexport", sec1, sec2, h1, false)
+	emitSections(out, cdc, "reexport", sec1, sec2, initChainHeight(h1), false)
 	obs["documents"]++
 }
